@@ -352,8 +352,15 @@ def build_jobs(prop, tier):
         reuse = []
         # a record set that has seen the end of the input (or an error) and is then reused for the same, no larger records
         S0 = {"o": "set", "s": 0}
+
+        def E(n):
+            return {"o": "exact", "s": 0, "n": n}
         hist = {"fixed": [{"ops": [S0] * k + [{"o": "seekl", "i": 0}] + [S0] * 3, "tail": S0} for k in (2, 3, 4, 6)]
-                         + [{"ops": [{"o": "next"}] * 2 + [S0] * k + [{"o": "seekl", "i": 1}] + [S0] * 2, "tail": S0} for k in (2, 4)]}
+                         + [{"ops": [{"o": "next"}] * 2 + [S0] * k + [{"o": "seekl", "i": 1}] + [S0] * 2, "tail": S0} for k in (2, 4)]
+                         # the same through exact-count reads: the set sees the end (or an error) in read_record_set_exact, the
+                         # reader seeks back and the set is refilled with the same records, by either kind of read
+                         + [{"ops": [E(n)] * k + [{"o": "seekl", "i": 0}] + [E(n)] * 3, "tail": E(n)} for n in (1, 2, 3) for k in (3, 7)]
+                         + [{"ops": [E(2)] * k + [{"o": "seekl", "i": 0}] + [S0] * 3 + [{"o": "seekl", "i": 0}] + [E(2)] * 2, "tail": S0} for k in (2, 4)]}
         for fmt in ("fasta", "fastq"):
             reuse.append(("reuse-after-end-" + fmt, suite(fmt, rnd(q(tier, 500, 5000), maxrec=6, maxfield=5, damage=15), [8, 16, 64], hist, chunks=[[0]], slots=1, extra=1, flags=fl), 4))
         J.append(ReaderJob("c18", plain_suites("fasta", tier, fl)[3:4] + plain_suites("fastq", tier, fl)[3:4] + history_suites("fasta", tier, fl, seeks=False)[1:] + history_suites("fastq", tier, fl, seeks=False) + reuse))
